@@ -479,6 +479,30 @@ package server
 //@   effects none
 //@   ensures result == uriPath(docURI)
 
+// The paths of a path-to-journal map in sorted order: what the per-kind searches and definition lookups walk, so that
+// their answers do not depend on map iteration order.
+//@ func sortedJournalPaths
+//@   props C09 C15
+//@   ensures [fresh] fresh(result) || len(result) == 0
+//@   ensures [C09,C15:only_keys] forall i int :: {result[i]} 0 <= i && i < len(result) ==> has(journals, result[i])
+//@   loop 1 sorted paths
+//@   loop 1 invariant fresh(paths)
+//@   loop 1 invariant forall i int :: {paths[i]} 0 <= i && i < len(paths) ==> has(journals, paths[i])
+
+// Payee definition = the earliest transaction of the payee; files are walked in sorted path order, so a tie on the date
+// is decided the same way on every request.
+//@ pred RngOK(r) := r.Start.Line >= 1 && r.Start.Column >= 1 && r.End.Line >= 1 && r.End.Column >= 1 && r.Start.Line <= 4294967296 && r.Start.Column <= 4294967296 && r.End.Line <= 4294967296 && r.End.Column <= 4294967296
+//@ pred JTxOK(j) := j != nil && (forall i int :: {j.Transactions[i]} 0 <= i && i < len(j.Transactions) ==> RngOK(j.Transactions[i].Range))
+//@ func findPayeeDefinitionResolved
+//@   props C15
+//@   requires resolved != nil ==> (forall p string :: {resolved.Files[p]} has(resolved.Files, p) ==> JTxOK(resolved.Files[p])) && (resolved.Primary != nil ==> JTxOK(resolved.Primary))
+//@   requires currentJournal != nil ==> JTxOK(currentJournal)
+//@   requires resolved != nil && resolved.Primary != nil && resolved.PrimaryPath == "" ==> srcPath(resolved) == currentPath
+//@   loop 1 invariant 0 - 1 <= rangeindex && (forall p string :: {journals[p]} has(journals, p) ==> JTxOK(journals[p]))
+//@   loop 1 decreases *
+//@   loop 2 invariant journal != nil && JTxOK(journal) && 0 - 1 <= rangeindex && rangeindex <= len(journal.Transactions) - 1 && (forall p string :: {journals[p]} has(journals, p) ==> JTxOK(journals[p]))
+//@   loop 2 decreases len(journal.Transactions) - rangeindex
+
 //@ func locationsEqual
 //@   props C09
 //@   effects none
@@ -494,6 +518,7 @@ package server
 //@   ensures [C09:primary] resolved != nil && resolved.Primary != nil && resolved.PrimaryPath != "" ==> result[resolved.PrimaryPath] == resolved.Primary
 //@   ensures [C09:primary_unlabelled] resolved != nil && resolved.Primary != nil && resolved.PrimaryPath == "" && currentPath != "" ==> result[currentPath] == resolved.Primary
 //@   ensures [C09:single] resolved == nil && currentJournal != nil && currentPath != "" ==> result[currentPath] == currentJournal && (forall p string :: {result[p]} p != currentPath ==> !has(result, p))
+//@   ensures [domain] forall p string :: {has(result, p)} has(result, p) ==> (resolved != nil && has(resolved.Files, p) && result[p] == resolved.Files[p]) || (resolved != nil && resolved.Primary != nil && result[p] == resolved.Primary) || (resolved == nil && currentJournal != nil && result[p] == currentJournal)
 //@   loop 1 modifies result[*]
 //@   loop 1 invariant result != nil && fresh(result) && resolved != nil
 //@   loop 1 invariant forall p string :: {result[p]} result[p] == ite(iterseen[p], resolved.Files[p], 0) && (has(result, p) <==> iterseen[p])
